@@ -78,6 +78,16 @@ def pick(w, R, empty=False):
     raise NoResolution("no reader branch matches writer %r" % (wd.kind,))
 
 
+def is_hollow(tree):
+    """A collection that (transitively) holds nothing but empty collections."""
+    k, v = tree[0], tree[1]
+    if k == "array":
+        return all(is_hollow(c) for c in v[0])
+    if k == "map":
+        return all(is_hollow(c) for _key, c in v[0])
+    return False
+
+
 def default_value(rtype, d):
     """A reader field default as the Python value a reader returns (bytes and
     fixed defaults are the ISO-8859-1 bytes of the JSON string)."""
@@ -119,12 +129,13 @@ def _resolve(w, r, tree, ctx):
     k = w.kind
     v = tree[1]
     empty = k in ("array", "map") and not v[0]
+    hollow = k in ("array", "map") and is_hollow(tree)
     try:
         if k == "union":
             wb = w.branches[v[0]]
             child = v[1]
             wbd = deref(wb)
-            cempty = wbd.kind in ("array", "map") and not child[1][0]
+            cempty = wbd.kind in ("array", "map") and is_hollow(child)
             if r.kind == "union":
                 return _resolve(wb, pick(wb, r, cempty), child, ctx)
             if not match(wb, r):
@@ -134,7 +145,7 @@ def _resolve(w, r, tree, ctx):
                 return _fail(ctx, "writer branch %r does not match reader %r" % (wbd.kind, r.kind))
             return _resolve(wb, r, child, ctx)
         if r.kind == "union":
-            return _resolve(w, pick(w, r, empty), tree, ctx)
+            return _resolve(w, pick(w, r, hollow), tree, ctx)
     except NoResolution as e:
         return _fail(ctx, str(e))
     except Either as e:
